@@ -48,7 +48,9 @@ func loadAhem() {
 }
 
 // NewFontConfig returns a FRESH font configuration knowing only the Ahem font
-// (family name "ahem"). engine is "pango" or "gotext".
+// (family name "ahem"). engine is "pango" or "gotext". Note that every call copies the
+// standard fontconfig configuration, which costs ~5 ms and ~0.5 MB that is never released:
+// use it where a private configuration matters (C15), and LightFontConfig elsewhere.
 func NewFontConfig(engine string) text.FontConfiguration {
 	loadAhem()
 	if engine == "gotext" {
@@ -59,6 +61,23 @@ func NewFontConfig(engine string) text.FontConfiguration {
 		return text.NewFontConfigurationGotext(fm)
 	}
 	return text.NewFontConfigurationPango(fcfonts.NewFontMap(fc.Standard.Copy(), fcAhem))
+}
+
+var (
+	sharedCfgOnce sync.Once
+	sharedCfg     *fc.Config
+)
+
+// LightFontConfig returns a new font configuration (new font map, new caches) built on a
+// per-process copy of the fontconfig configuration. Documents using @font-face mutate that
+// configuration and must use NewFontConfig instead.
+func LightFontConfig(engine string) text.FontConfiguration {
+	if engine == "gotext" {
+		return NewFontConfig(engine)
+	}
+	loadAhem()
+	sharedCfgOnce.Do(func() { sharedCfg = fc.Standard.Copy() })
+	return text.NewFontConfigurationPango(fcfonts.NewFontMap(sharedCfg, fcAhem))
 }
 
 // ErrTooManyPages is the panic value used to abort a page loop that exceeds its bound.
@@ -102,7 +121,8 @@ type Options struct {
 	PageBound  int      // abort when the page loop goes beyond this page number (0 = 400)
 	BaseURL    string
 	Fetcher    utils.UrlFetcher
-	FontConfig text.FontConfiguration // nil = fresh Ahem configuration
+	FontConfig text.FontConfiguration // nil = LightFontConfig (or NewFontConfig when FreshFonts)
+	FreshFonts bool                   // private copy of the fontconfig configuration (needed with @font-face)
 	NoWrite    bool
 }
 
@@ -122,7 +142,11 @@ func init() {
 func parse(o *Options) (*tree.HTML, []tree.CSS, text.FontConfiguration, error) {
 	fontConfig := o.FontConfig
 	if fontConfig == nil {
-		fontConfig = NewFontConfig(o.Engine)
+		if o.FreshFonts {
+			fontConfig = NewFontConfig(o.Engine)
+		} else {
+			fontConfig = LightFontConfig(o.Engine)
+		}
 	}
 	html, err := tree.NewHTML(utils.InputString(o.HTML), o.BaseURL, o.Fetcher, "")
 	if err != nil {
